@@ -49,7 +49,7 @@ FsActs == {"node-file-create", "node-file-delete", "node-file-restore", "node-fi
 SshActs == {"node-session-remote-login", "node-send-remote-command", "node-session-remote-logoff", "node-account-change-password"}
 Acts == PowerActs \cup (CASE Facet = "svc" -> SvcActs [] Facet = "app" -> AppActs [] Facet = "ssh" -> SshActs [] OTHER -> FsActs)
 
-InitOp == CASE Facet = "svc" -> "RUNNING" [] Facet = "app" -> "RUNNING" [] Facet = "ssh" -> "NONE" [] OTHER -> "ABSENT"
+InitOp == CASE Facet = "svc" -> "RUNNING" [] Facet = "app" -> "RUNNING" [] Facet = "ssh" -> "NONE" [] OTHER -> "NOFOLDER"
 
 Init == /\ pw = "ON" /\ pc = 0 /\ rs = FALSE
         /\ op = InitOp /\ oc = 0 /\ hs = "GOOD" /\ fc = 0 /\ act = "init"
@@ -75,15 +75,19 @@ AppReq(a) ==   \* (application.py: scan / close / fix need a RUNNING application
       [] a = "node-application-install" /\ op = "ABSENT"  -> [o |-> "INSTALLING", c |-> InstDur, h |-> "GOOD", f |-> 0]
       [] OTHER -> [o |-> op, c |-> oc, h |-> hs, f |-> fc]
 
-FsReq(a) ==
-    CASE a = "node-file-create"    /\ op = "ABSENT"   -> [o |-> "PRESENT", c |-> 0, h |-> "GOOD", f |-> 0]
-      [] a = "node-file-delete"    /\ op = "PRESENT"  -> [o |-> "DELETED", c |-> 0, h |-> hs, f |-> 0]
-      [] a = "node-file-restore"   /\ op = "DELETED"  -> [o |-> "PRESENT", c |-> 0, h |-> hs, f |-> 0]
-      [] a = "node-file-restore"   /\ op = "PRESENT" /\ hs = "CORRUPT" -> [o |-> op, c |-> 0, h |-> "GOOD", f |-> 0]
-      [] a = "node-file-corrupt"   /\ op = "PRESENT"  -> [o |-> op, c |-> oc, h |-> "CORRUPT", f |-> 0]
-      [] a = "node-file-repair"    /\ op = "PRESENT"  -> [o |-> op, c |-> oc, h |-> "GOOD", f |-> 0]
-      [] a = "node-folder-repair"  /\ op = "PRESENT"  -> [o |-> op, c |-> oc, h |-> "GOOD", f |-> 0]
-      [] a = "node-folder-restore" /\ op # "ABSENT"   -> [o |-> op, c |-> RestDur, h |-> hs, f |-> 0]
+FsReq(a) ==    \* (file_system.py / folder.py / file.py through the agent actions; op: the file t.txt of folder tourf;
+               \*  fc: deleted files of that name in the folder - 0 / 1 (one or more) next to a live file, 1 / 2 (two or more) otherwise)
+    CASE a = "node-folder-create"  /\ op = "NOFOLDER" -> [o |-> "ABSENT", c |-> 0, h |-> "GOOD", f |-> 0]
+      [] a = "node-file-create"    /\ op \in {"NOFOLDER", "ABSENT"}
+                                                       -> [o |-> "PRESENT", c |-> oc, h |-> "GOOD", f |-> 0]
+      [] a = "node-file-create"    /\ op = "DELETED"  -> [o |-> "PRESENT", c |-> oc, h |-> "GOOD", f |-> 1]
+      [] a = "node-file-delete"    /\ op = "PRESENT"  -> [o |-> "DELETED", c |-> oc, h |-> hs, f |-> fc + 1]
+      \* (the agent action reaches live files only: a deleted file comes back through a folder restore)
+      [] a = "node-file-restore"   /\ op = "PRESENT" /\ hs = "CORRUPT" -> [o |-> op, c |-> oc, h |-> "GOOD", f |-> fc]
+      [] a = "node-file-corrupt"   /\ op = "PRESENT"  -> [o |-> op, c |-> oc, h |-> "CORRUPT", f |-> fc]
+      [] a = "node-file-repair"    /\ op = "PRESENT"  -> [o |-> op, c |-> oc, h |-> "GOOD", f |-> fc]
+      [] a = "node-folder-repair"  /\ op = "PRESENT"  -> [o |-> op, c |-> oc, h |-> "GOOD", f |-> fc]
+      [] a = "node-folder-restore" /\ op # "NOFOLDER" /\ oc = 0 -> [o |-> op, c |-> RestDur, h |-> hs, f |-> fc]
       [] OTHER -> [o |-> op, c |-> oc, h |-> hs, f |-> fc]
 
 SshReq(a) ==
@@ -136,11 +140,16 @@ Step(a) ==
         h0  == IF on2 THEN BootHs(o0, h1) ELSE h1
         live == p2 = "ON"                                   \* software gets this tick iff the node is ON after its power step
         ticking == live /\ (Facet = "fs" \/ o1 \in {"RESTARTING", "INSTALLING"})
-        o2  == IF live THEN TimedOp(o1, q.c) ELSE o1
+        fsdone == Facet = "fs" /\ live /\ q.c = 1       \* a folder restore completes on the tick that takes its countdown to 0
+        o2  == IF fsdone /\ o1 = "DELETED" THEN "PRESENT" ELSE IF live THEN TimedOp(o1, q.c) ELSE o1
         k2  == IF ticking THEN Dec(q.c) ELSE q.c
-        fixing == live /\ h0 = "FIXING" /\ o1 # "ABSENT"
-        f2  == IF fixing THEN (IF q.f <= 1 THEN 0 ELSE q.f - 1) ELSE q.f
-        h2  == IF fixing /\ q.f <= 1 THEN "GOOD"
+        fixing == Facet # "fs" /\ live /\ h0 = "FIXING" /\ o1 # "ABSENT"
+        f2  == IF Facet = "fs" THEN (IF fsdone /\ o1 = "DELETED" THEN q.f - 1 ELSE q.f)
+               ELSE IF fixing THEN (IF q.f <= 1 THEN 0 ELSE q.f - 1) ELSE q.f
+        \* (a folder restore repairs the live file; of the deleted files of one name the one deleted last is un-deleted as it
+        \*  was, and every further deleted file of that name "restores" - i.e. repairs - the now live one)
+        h2  == IF fsdone /\ ((o1 = "PRESENT" /\ h0 = "CORRUPT") \/ (o1 = "DELETED" /\ q.f >= 2)) THEN "GOOD"
+               ELSE IF fixing /\ q.f <= 1 THEN "GOOD"
                ELSE IF live /\ o1 = "INSTALLING" /\ q.c <= 1 THEN "GOOD" ELSE h0
     IN  /\ pw' = p2 /\ pc' = c2 /\ rs' = (r1 /\ p2 = "SD")
         /\ op' = o2 /\ oc' = k2 /\ hs' = h2 /\ fc' = f2 /\ act' = a
